@@ -19,6 +19,9 @@ CHECKS = {
  'C04': dict(cat='proof', tech='deductive: decoded-message == contents postconditions on the real read_* primitives, _ProtocolHandler.decode_message (every flag subset per version), ErrorMessage.recv_body + every recv_error_info/to_exception, ResultMessage.recv_body (five kinds, metadata flag combinations, read_type), EventMessage, READY/AUTHENTICATE/AUTH_CHALLENGE/AUTH_SUCCESS/SUPPORTED, on bodies built from the specification layout of symbolic contents; bounded decode of frames from an independent spec encoder',
              text='For each protocol version the body is the specification layout of symbolic numbers, byte strings and texts of any length (plus a fixed-length pass that keeps mis-parses decidable) and the real decoder must return exactly those contents and consume exactly the body. List/map/column/row counts are unrolled (0..2), type options cover all primitive codes and one level of nesting. AUTH_SUCCESS token handling is a recorded known finding; the order of the DSE continuous-paging page number relative to NO_METADATA/new_metadata_id is a stated residual.',
              ref='DESIGN.md §4 C04'),
+ 'C33': dict(cat='proof', tech='deductive: loop-invariant proof of SortedSet._find_insertion for lists of any length; representation-invariant + whole-view postconditions (set algebra over symbolic integer elements, operand sizes unrolled) on every public SortedSet operation; OrderedMap operations against an insertion-ordered association list with an injective key serialization',
+             text='The binary search is proved for any list length. Every SortedSet operation (add/remove/pop/contains/clear/copy/len/iteration/union/intersection/difference/symmetric difference, n-ary forms, operators, in-place operators, comparisons, construction) is verified for all element values with operand sizes up to 3/2 (thorough 4/3): result strictly ascending and its element set exactly the mathematical result, operands unchanged. OrderedMap: every operation for maps of up to 3 entries with symbolic keys/values, index invariant preserved. Elements are integers standing for any totally ordered type (A-ORDER).',
+             ref='DESIGN.md §4 C33'),
  'C31': dict(cat='proof', tech='deductive: lock-invariant proof of MonotonicTimestampGenerator.__call__ for arbitrary clock and history + frame scan',
              text='Lock invariant (all returned timestamps <= last) proved preserved by __call__ for an arbitrary prior state and clock reading; '
                   'strict monotonicity across threads follows for lock-respecting schedules; unprotected reads/writes of `last` fail an obligation.',
